@@ -11,7 +11,7 @@ from vf.ref import hashing
 
 ID = "C01"
 LEVEL = "exploration"
-TECHNIQUE = "Hypothesis-generated trees x piece lengths x routes (+ exhaustive boundary grid) against an independent BEP 3 reference hashing of the written metafile ; optional second act (one file rewritten in place, same process creates again)"
+TECHNIQUE = "Hypothesis-generated trees x piece lengths x routes (+ exhaustive boundary grid) against an independent BEP 3 reference hashing of the written metafile ; optional second act (one file rewritten in place, same process creates again) ; output written inside the content root (new name / over a listed file)"
 RULE = ("Cases: generated content tree (1..8 files, quick; sizes biased to 0,1,k*16KiB+-2,k*P+-2, tiny) x piece length "
         "(2^14..2^16 quick, ..2^18 thorough, or automatic) x how P is spelled (int/exponent/str) x route (TorrentFile "
         "library call / CLI create --meta-version 1) x progress mode; plus an enumerated boundary grid. Non-trivial: "
@@ -45,6 +45,10 @@ def strategy(tier):
             "route": route, "progress": draw(st.sampled_from([0, 0, 1, 2])),
             "spelling": draw(st.sampled_from(["abs", "abs", "rel", "dot-rel"])),
             "again": draw(common.second_act()),
+            # where the metafile goes: outside the payload, or - as when a torrent of a folder is saved into that folder,
+            # possibly over the previous one - inside the content root (a new name, or on top of a listed payload file)
+            "out_at": draw(st.sampled_from(["outside"] * 6 + ["inside-new", "inside-existing"])),
+            "out_pick": draw(st.integers(0, 63)),
         }
     return case()
 
@@ -144,6 +148,17 @@ def run_case(case):
         root = sandbox.materialize(tree, os.path.join(scr, "src"))
         out = os.path.join(scr, "out", "o.torrent")
         P = case["P"]
+        out_at = case.get("out_at", "outside")
+        if tree["single"] or any("via" in f or "hardlink" in f for f in tree["files"]):
+            out_at = "outside"
+        if out_at == "inside-new":
+            out = os.path.join(root, "saved here.torrent")
+            if os.path.lexists(out):
+                out_at = "outside"
+                out = os.path.join(scr, "out", "o.torrent")
+        elif out_at == "inside-existing":
+            f = tree["files"][case.get("out_pick", 0) % len(tree["files"])]
+            out = os.path.join(root, *f["path"])
         old_cwd = os.getcwd()
         sp = case.get("spelling", "abs")
         if sp != "abs":
@@ -163,7 +178,9 @@ def run_case(case):
                 target.create_cli(1, root, out, extra)
             m = vmeta.Meta.from_file(out)
             first = judge(m, tree, P)
-            if first.violation is None and case.get("again"):
+            if out_at != "outside":
+                first.classes = tuple(first.classes) + ("out-" + out_at,)
+            if first.violation is None and case.get("again") and out_at == "outside":
                 tree2 = common.apply_second_act(tree, os.path.join(scr, "src", tree["name"]), case["again"])
                 if tree2 is not None:
                     out2 = os.path.join(scr, "out", "again.torrent")
